@@ -7,6 +7,21 @@ from harness import common
 BASE_OFF = "cd /repo && env -u CRYPTOPARSER_VERIF /venv/bin/python -m pytest -ra -q -p no:cacheprovider --timeout=900 --continue-on-collection-errors"
 
 CHECKS = {
+    'C18': dict(
+        category='proof',
+        text='Coq model of the NameValuePairList tokeniser (separator_spaces, skip_empty), NameValuePair, the OrderedDict and '
+             'FieldValueMultiple._parse_basic_params, proved equal to split/trim/drop-empty and to one case-insensitive lookup per '
+             'attribute; theorems: every spelling (blanks, empty elements) of an item list tokenises to the items, the composed spelling '
+             'is one of them, quoting, letter case of names, order, unknown directives, optional white space and name case of header '
+             'lines, for every FieldValueMultiple class of the table regenerated from the library. Tied by running the extracted model '
+             'and the real _parse_basic_params/_check_name on the same texts; value classes, CSP, NEL and SPF are compared with the '
+             'RFC grammar directly (spelling generators per family and rule), header blocks against their lines parsed one by one.',
+        design_ref='DESIGN.md section 6, C18',
+        note='Trusted: Coq kernel + vm_compute; extraction (ExtrOcamlBasic); gen_tables.field_schemas (probes _check_name); the spelling '
+             'generators of harness/c18gen.py as a reading of RFC 6797/7469/9163/7234/6265/7231/7489/8461/8460/7208 and CSP3. '
+             'Component value classes, CSP source lists, the JSON decoder and the SPF term grammar are not modelled.',
+        technique='Coq proof (refinement to split/trim/filter and to per-attribute lookup, induction over spellings) over a generated '
+                  'schema table; model/implementation correspondence; grammar-driven spelling comparison on the implementation'),
     'C17': dict(
         category='proof',
         text='Coq theorems over the generated TlsVersion table: strict total order / trichotomy / derived operators / '
